@@ -208,7 +208,16 @@ def r15_4_threshold_definition(ctx, rule: str = 'R15.4', rule_mirror: str = 'R08
     seen_empty = 0
     verdict: Dict[tuple, List[bool]] = {}
     detail: Dict[tuple, str] = {}
+    # conditional expressions inside the returned value are cases of their own (`a if s[0] > t_start else b` in a list
+    # element is the same decision as an `if` statement around the return)
+    results = []
     for v, conds, env_p, stores, node in mp.results:
+        if v is not None and C.is_poly(v) and not C.contradictory(conds):
+            for v2, conds2 in C.case_split(v, conds):
+                results.append((v2, conds2, env_p, stores, node))
+        else:
+            results.append((v, conds, env_p, stores, node))
+    for v, conds, env_p, stores, node in results:
         cs = set(conds)
         if C.contradictory(conds):
             continue            # contradictory path conditions: not a path of the function
@@ -300,10 +309,38 @@ def r15_4_threshold_definition(ctx, rule: str = 'R15.4', rule_mirror: str = 'R08
                 good = len(a) == 3 and isinstance(a[0], ast.Name) and a[0].id == loops[0].target.id and \
                     [ast.unparse(x) for x in a[1:]] == ps2[1:3]
                 pool = st.target.id
+        # the same pool as one flattening comprehension: [x for t in trains for x in isi_lengths(t, t_start, t_end)]
+        # (compared as canonical values: bound names do not matter)
+        comp_pool = None
+        rv_comp = None
+        if not good and not loops and len(ps2) >= 3:
+            try:
+                env2 = Env()
+                from .compare import Region
+                side2 = Side(f2)
+                pe2 = PathExec(side2)
+                for st in f2.node.body:
+                    if isinstance(st, (ast.Assign, ast.AugAssign)):
+                        pe2.cmp.exec_simple(st, env2, Region(), side2)
+                retn = next(n for n in f2.node.body if isinstance(n, ast.Return))
+                rv_comp = C.canon_expr(retn.value, env2)
+                ref = f"[x__ for t__ in {ps2[0]} for x__ in isi_lengths(t__, {ps2[1]}, {ps2[2]})]"
+                for wrap in ("np.array({})", "{}", "np.asarray({})"):
+                    P_ = C.canon_expr(ast.parse(wrap.format(ref), mode='eval').body, Env())
+                    want_ = C.canon_expr(ast.parse("np.sqrt(np.sum(P__ * P__) / len(P__))", mode='eval').body, Env())
+                    want_ = C.subst_atoms(want_, {('n', 'P__'): P_})
+                    if rv_comp == want_:
+                        comp_pool = P_
+                        good = True
+                        break
+            except Exception:
+                comp_pool = None
         obs.append(ok(rule, t, f2.loc(), construct=f"{fn2}::pool") if good else violation(rule, t, f2.loc(), key=f"{fn2}::pool-all-trains"))
         t = "default_thresh_: returns the root mean square sqrt(sum(x*x) / len(x)) of the pooled lengths"
-        good = False
+        good = comp_pool is not None
         try:
+            if comp_pool is not None:
+                raise StopIteration
             env2 = Env()
             from .compare import Region
             side2 = Side(f2)
@@ -325,6 +362,8 @@ def r15_4_threshold_definition(ctx, rule: str = 'R15.4', rule_mirror: str = 'R08
                         X = da[2][0]
                         if na[2][0] == C.mul(X, X) and C.single_atom(X) is not None:
                             good = True
+        except StopIteration:
+            pass
         except Exception:
             good = False
         obs.append(ok(rule, t, f2.loc(), construct=f"{fn2}::rms") if good else violation(rule, t, f2.loc(), key=f"{fn2}::rms-shape"))
@@ -689,9 +728,14 @@ def r20_1_multiset(ctx, rule: str = 'R20.1') -> List[Ob]:
     t = "merge_spike_trains: the result's spikes come from the `.spikes` of every train of the list through concatenation and sorting only"
     good = False
     detail = ''
-    if ret is not None and isinstance(ret.value, ast.Call) and ret.value.args and isinstance(ret.value.args[0], ast.Name):
-        var = ret.value.args[0].id
-        defs = [n for n in f.node.body if isinstance(n, ast.Assign) and isinstance(n.targets[0], ast.Name) and n.targets[0].id == var]
+    if ret is not None and isinstance(ret.value, ast.Call) and ret.value.args:
+        if isinstance(ret.value.args[0], ast.Name):
+            var = ret.value.args[0].id
+            defs = [n for n in f.node.body if isinstance(n, ast.Assign) and isinstance(n.targets[0], ast.Name) and n.targets[0].id == var]
+        else:
+            # the pooled array is built in the constructor call itself
+            var = '<result>'
+            defs = [ast.Assign(targets=[ast.Name(id=var, ctx=ast.Store())], value=ret.value.args[0])]
         ops = []
         src_ok = False
         for d in defs:
@@ -877,6 +921,17 @@ def r13_3_reconcile_shape(ctx, rule: str = 'R13.3') -> List[Ob]:
     env = Env()
     t = "reconcile_spike_trains: the common interval runs from the smallest start to the largest end"
     mins = [n for n in ast.walk(src) if isinstance(n, ast.Call) and isinstance(n.func, ast.Name) and n.func.id in ('min', 'max')]
+    # lists that hold one entry per input train: the parameter and comprehensions over such a list without a filter
+    per_train = {p0}
+    grew = True
+    while grew:
+        grew = False
+        for n in ast.walk(src):
+            if isinstance(n, ast.Assign) and len(n.targets) == 1 and isinstance(n.targets[0], ast.Name) and isinstance(n.value, ast.ListComp) \
+                    and len(n.value.generators) == 1 and not n.value.generators[0].ifs and isinstance(n.value.generators[0].iter, ast.Name) \
+                    and n.value.generators[0].iter.id in per_train and n.targets[0].id not in per_train:
+                per_train.add(n.targets[0].id)
+                grew = True
     srcs = {}
     for n in ast.walk(src):
         if isinstance(n, ast.Assign) and isinstance(n.value, ast.ListComp) and isinstance(n.targets[0], ast.Name):
@@ -890,7 +945,7 @@ def r13_3_reconcile_shape(ctx, rule: str = 'R13.3') -> List[Ob]:
         if m.args and isinstance(m.args[0], ast.Name) and m.args[0].id in srcs:
             got[srcs[m.args[0].id]] = m.func.id
         elif m.args and isinstance(m.args[0], (ast.ListComp, ast.GeneratorExp)) and not m.args[0].generators[0].ifs \
-                and isinstance(m.args[0].generators[0].iter, ast.Name) and m.args[0].generators[0].iter.id == p0:
+                and isinstance(m.args[0].generators[0].iter, ast.Name) and m.args[0].generators[0].iter.id in per_train:
             # the list of edges passed directly
             e = ast.unparse(m.args[0].elt)
             if e.endswith('.t_start'):
